@@ -131,6 +131,19 @@ pub fn exec(op: &str, a: &[Vec<u8>]) -> Out {
             o.extend_from_slice(&enc(&s2));
             Out::Ok(o)
         }
+        // byte-string equality of compressed elements: ct_eq, ==, Hash, is_identity (all on the 32 bytes as given)
+        "rs.compressed_eq" => {
+            use curve25519_dalek::ristretto::CompressedRistretto;
+            let x = CompressedRistretto(need!(b32(&a[0])));
+            let y = CompressedRistretto(need!(b32(&a[1])));
+            let hh = |c: &CompressedRistretto| {
+                use std::hash::{Hash, Hasher};
+                let mut s = std::collections::hash_map::DefaultHasher::new();
+                c.hash(&mut s);
+                s.finish()
+            };
+            Out::Ok(vec![x.ct_eq(&y).unwrap_u8(), (x == y) as u8, (hh(&x) == hh(&y)) as u8, curve25519_dalek::traits::IsIdentity::is_identity(&x) as u8])
+        }
         "rs.batch" => {
             let ps = need!(split32(&a[0]));
             let mut v = vec![];
